@@ -437,7 +437,7 @@ def dump_full(las):
         d = c.data
         vals = None
         if d is not None and getattr(d, "shape", None) != ():
-            vals = [canon_val(x)[1] for x in d.tolist()] if d.dtype.kind == "f" else [str(x) for x in d.tolist()]
+            vals = [canon_val(x)[1] for x in d.tolist()] if d.dtype.kind == "f" else ["s:" + str(x) for x in d.tolist()]
         data.append([c.original_mnemonic, vals])
     return {"sections": secs, "data": data}
 
